@@ -86,7 +86,14 @@ SPEC = {  # the property statement's table: injected rule violation -> published
     "unbalanced": "PARENTHESES_MISMATCH", "empty_delimiter": "TAG_EMPTY", "empty_group": "TAG_EMPTY",
     "forbidden_character": "CHARACTER_INVALID", "stray_placeholder": "PLACEHOLDER_INVALID",
     "definition_copy_placeholder": "PLACEHOLDER_INVALID", "undeclared_def": "DEF_INVALID", "wrong_def_value": "DEF_INVALID", "altered_def_expand": "DEF_EXPAND_INVALID",
-    "duplicated_unique": "TAG_NOT_UNIQUE"}
+    "duplicated_unique": "TAG_NOT_UNIQUE",
+    # a Duration/Delay group that breaks the Duration rule (an extra tag; zero or two inner groups) written AFTER a legal delayed
+    # Onset/Offset/Inset group, and BEFORE it (control): the rule holds per group, wherever the group is written (seed C04-f)
+    "duration_group_malformed_after_delayed_temporal": "TEMPORAL_TAG_ERROR",
+    "duration_group_malformed_before_delayed_temporal": "TEMPORAL_TAG_ERROR"}
+# kinds produced by their own generator functions, not by Gen.inject
+OWN_GENERATOR = {"definition_copy_placeholder", "duration_group_malformed_after_delayed_temporal",
+                 "duration_group_malformed_before_delayed_temporal"}
 # violations of these kinds belong to a known defect family (the duplicate check only compares neighbours of a sort that
 # does not bring equal elements together): narrow signature, listed in known_findings.json or fixed by C04's patch
 SIGNATURES = {"repeated_group_reordered": "C01-repeated-group-order-dependent"}
@@ -199,6 +206,9 @@ FIXTURES = [
     "(Duration/3 s, (Red)), (Item, Agent, (Duration/3 s, (Red)))", "(Duration/3 s, (Red)), (Item, (Agent, (duration/3 s, (red))))",
     "(Event-context, Red), (Item, (Event-context, Red))", "(Def/A, Onset), (Item, (Def/A, Onset))", "(Item, (Duration/3 s, (Red)))",
     "(),()", "((())),((()))", "(Red,()),(Red,())", "(Red,Blue),(Green),(Blue,Red)", "(Red,Blue),(Blue,Red)",
+    "(Duration/3 s, Blue), (Delay/1 s, Onset, Def/A)", "(Delay/1 s, Onset, Def/A), (Duration/3 s, Blue)",
+    "(Offset, Delay/2 s, Def/A), (Delay/3 s, (Blue), (Green))", "(Delay/1 s, Inset, Def/A), Green, (Duration/3 s, Delay/1 s, Blue, (Red))",
+    "(Delay/2 s, Def/B, Offset), (Duration/3 s), (Duration/3 s, (Blue))", "(Delay/1 s, Onset, (Red)), (Duration/3 s, Blue)",
     "Label/ABC, Label/abc", "Label/ABC, Label/Abd, Label/abc", "Red, Blue, Red", "Red, Blue/Xx, Blue/xx", "Blue/Xx, Blue/Xx", "Label/a, Label/A", "Label/a, label/a",
 ]
 
@@ -837,6 +847,90 @@ def definition_copy_cases(g, n):
     return out
 
 
+def duration_after_delayed_cases(g, n):
+    """[(kind, text, ph)]: a conforming annotation + a LEGAL delayed temporal group `(Delay/t, Onset|Offset|Inset, Def/<declared>)`
+    + ONE Duration/Delay group malformed for the Duration rule (the group holds only Duration and/or Delay and exactly one inner
+    group): an extra tag, no inner group, two inner groups.  The malformed group is written after the delayed one (kind
+    ..._after_...) or before it (..._before_..., control); other members may stand between.  Expectation from the rule itself:
+    TEMPORAL_TAG_ERROR in both orders.  Needs Duration and Delay as top-level-group tags and declared definitions."""
+    v, rng = g.v, g.rng
+    if not getattr(v, "defs", None) or "Def" not in g.by_short:
+        return []
+    if not all(s in g.by_short and v.base(g.by_short[s])["tl"] for s in ("Duration", "Delay")):
+        return []
+    anchors = [a for a in ("Onset", "Offset", "Inset") if a in g.by_short]
+    if not anchors:
+        return []
+
+    def timed(short):
+        i = g.by_short[short]
+        return g.form(i) + "/" + g.unit_text(v.value_child(i))
+
+    def delayed():
+        name, takes, _ = rng.choice(v.defs)
+        value = g.def_value(name) if takes else None
+        a = rng.choice(anchors)
+        grp = [timed("Delay"), g.spell(a), g.def_tag("Def", name, value) if rng.random() < 0.75 else g.def_expand(name, value)]
+        if a != "Offset" and rng.random() < 0.5:
+            grp.append([g.form(rng.choice(g.noext))])
+        if rng.random() < 0.6:
+            rng.shuffle(grp)
+        return Sealed(grp)
+
+    def malformed():
+        lead = rng.choice([["Duration"], ["Duration"], ["Delay"], ["Duration", "Delay"]])
+        grp = [timed(s) for s in lead]
+        a, b, c = (g.form(i) for i in rng.sample(g.noext, 3))
+        k = rng.randrange(6)
+        if k == 0:
+            grp += [a]                    # (Duration/3 s, Blue)
+        elif k == 1:
+            pass                          # (Duration/3 s)
+        elif k == 2:
+            grp += [[a], [b]]             # (Duration/3 s, (Blue), (Red))
+        elif k == 3:
+            grp += [a, [b]]               # (Delay/1 s, Duration/2 s, Green, (Blue))
+        elif k == 4:
+            grp += [a, b]
+        else:
+            grp += [[a, [c]], [b]]
+        if rng.random() < 0.6:
+            rng.shuffle(grp)
+        return Sealed(grp)
+
+    def is_delayed(node):
+        """a top-level member holding a Delay tag and an Onset/Offset/Inset tag"""
+        if not isinstance(node, list):
+            return False
+        tags = [m.casefold() for m in node if isinstance(m, str)]
+        return any("delay/" in m for m in tags) and any(m.rsplit("/", 1)[-1] in {a.casefold() for a in anchors} for m in tags)
+
+    out = []
+    for k in range(n):
+        ph = rng.random() < 0.5
+        tree = g.conforming(ph) if k % 4 > 1 else []     # half of them: the two groups alone
+        first, second = delayed(), malformed()
+        kind = "duration_group_malformed_after_delayed_temporal"
+        if k % 2:
+            first, second = second, first
+            kind = "duration_group_malformed_before_delayed_temporal"
+        if k % 2 == 0:
+            i = rng.randint(0, len(tree))
+            tree.insert(i, first)
+            tree.insert(rng.randint(i + 1, len(tree)), second)
+            if rng.random() < 0.3:                       # a second delayed group anywhere
+                tree.insert(rng.randint(0, len(tree)), delayed())
+        else:
+            # control: the malformed group is written before EVERY delayed group (the conforming part may hold one as well)
+            tree.append(second)
+            if rng.random() < 0.3:
+                tree.insert(rng.randint(0, len(tree)), delayed())
+            j = min(x for x, node in enumerate(tree) if is_delayed(node))
+            tree.insert(rng.randint(0, j), first)
+        out.append((kind, g.render(tree), ph))
+    return out
+
+
 def value_class_cases(g):
     """[(text, expectation)]: every takes-value tag with >= 2 value classes and one tag of every value-class combination of the
     schema x VALUE_POOL; expectation = (accepted?, code an error must carry) from the reference reading, None for unit-class tags
@@ -1021,7 +1115,7 @@ def run_schema(ctx, name, n_grammar, n_fuzz, sweep):
         raise RuntimeError(f"the harness's own definitions are not accepted: {dd.issues}")
     check_attrs(ctx, v, schema)
     g = Gen(rng, v, pluralize.plural)
-    kinds = [k for k in SPEC if k != "definition_copy_placeholder"]    # generated by definition_copy_cases
+    kinds = [k for k in SPEC if k not in OWN_GENERATOR]    # those are generated by definition_copy_cases / duration_after_delayed_cases
     cases = []   # (stream, kind, text, ph, needs_dict)
     for k in range(n_grammar):
         ph = rng.random() < 0.5
@@ -1058,6 +1152,8 @@ def run_schema(ctx, name, n_grammar, n_fuzz, sweep):
         cases.append(("grammar", "toplevel_copy", text, ph, dd is not None))
     for text in definition_copy_cases(g, max(8, n_grammar // 100)):
         cases.append(("grammar", "definition_copy_placeholder", text, False, dd is not None))
+    for kind, text, ph in duration_after_delayed_cases(g, max(16, n_grammar // 40)):
+        cases.append(("grammar", kind, text, ph, dd is not None))
     vc_expect = {}
     for text, i, exp, value in value_class_cases(g):
         vc_expect[text] = (i, exp, value)
@@ -1138,7 +1234,8 @@ def run(ctx):
     ctx.extra["duplicate_rule_variant"] = detect_variant()
     ctx.extra["rule"] = ("grammar: conforming annotations over the schema vocabulary (random suffix form/case, extensions, values "
                          "with accepted units, Event-context/Duration/Delay groups, nesting <= 3, no repeated siblings) and one "
-                         "injected violation per kind; fuzz: random strings over tags, fragments, delimiters, #{}[]~:, "
+                         "injected violation per kind (+ own generators: nested copies of top-level groups, copies of definition content, a Duration/Delay "
+                         "group malformed for the Duration rule written after / before a legal delayed Onset-Offset-Inset group); fuzz: random strings over tags, fragments, delimiters, #{}[]~:, "
                          "non-ASCII, control characters + fixtures; non-trivial = injected, fuzz, or has a group")
     ctx.notes.append("model = HedString(text, schema, def_dict) with the definition dictionary as data (content text resolved by the "
                      "model), one schema, default error handler; every grammar / sweep / fuzz case is compared on complete issue lists")
